@@ -456,7 +456,7 @@ EvCallCreate == /\ pend' = [pend EXCEPT !.mon = IF R.kind = "mon" THEN "monnode"
                 /\ UNCHANGED <<buf, caches, stages, pubs, fsubs, ctls, mons, net>>
 
 EvMonNew == /\ mons' = (pend.mon :> [sub |-> X(1), inited |-> FALSE, active |-> "", stopping |-> FALSE, n |-> 0]) @@ mons
-            /\ pend' = [SetConsumer(X(1), IF pend.monmode = "stalled" THEN "stalled" ELSE "lib") EXCEPT !.mon = ""]
+            /\ pend' = [SetConsumer(X(1), IF pend.monmode \in {"stalled", "pausing"} THEN pend.monmode ELSE "lib") EXCEPT !.mon = ""]
             /\ UNCHANGED <<buf, caches, stages, pubs, fsubs, ctls, net>>
 
 EvCb ==
